@@ -18,6 +18,11 @@ def txt(a):
 
 
 def sq(s):
+    """One shell word for a value.  Values with a single quote or a control character are written as
+    $'...' : the '\\'' idiom cannot be used because /repo keeps the backslash of \\' in assignments
+    (a defect outside this property, reported to the coordinator)."""
+    if "'" in s or any(ord(c) < 32 for c in s):
+        return vlib.bash_dollar_quote(s)
     return vlib.shquote(s)
 
 
@@ -70,10 +75,24 @@ def body(v):
 
 
 def expected(v):
+    """(stdout, failed) the spec defines for a vector (or for one of its deviation candidates)."""
     if v["err"]:
         return ("", True)
     fs = [txt(f) for f in v["fields"]]
     return ("%d%s\n" % (len(fs), fmt(fs)) + dump_expected(v["after"]), False)
+
+
+def dev_name(v, impl):
+    """Name of the known deviation(s) (switches of ShParam!Sem) whose predicted output equals the
+    implementation's, or None."""
+    for d in sorted(v.get("devs", []), key=lambda d: (len(d["name"]), sorted(d["name"]))):
+        out, failed = expected(d)
+        if v["after"]["k"] in ("idx", "assoc") and d["after"]["k"] in ("unset", "str") or \
+           v["after"]["k"] in ("unset", "str") and d["after"]["k"] in ("idx", "assoc"):
+            continue  # the dump command was chosen for the contract's kind; not comparable
+        if (canon(out, v["unord"]), failed) == impl:
+            return "Dev_" + "+".join(sorted(d["name"]))   # the smallest set of deviations that explains it
+    return None
 
 
 _grp = re.compile(r"(?:<[^<>]*>)+")
@@ -175,10 +194,19 @@ def evaluate(ck, vecs, h, collect=None):
                 ck.sample({"program": body(v)[len(AUX):], "stdout": spec[0]})
             continue
         if bash is not None and impl == bash and bash != spec:
+            # the implementation agrees with bash, the spec does not: a defect of the spec (or a corrupted vector)
             ck.drift(dict(rec, spec=spec, impl=impl, bash=bash))
+            if ck.notes.get("spec_drift", 0) <= 10:
+                print("SPEC-DRIFT property=C21 key=%s spec=%r bash=impl=%r" % (key, spec, bash))
             continue
-        ck.violation(key, dict(rec, spec=spec, impl=impl, bash=bash, stderr=ir.get("err", "")[:200],
-                               spec_agrees_with_bash=(bash is None or bash == spec)))
+        dn = dev_name(v, impl) if (bash is None or bash == spec) else None
+        if dn and "+" in dn and dn not in ck.known and all("Dev_" + p in ck.known for p in dn[4:].split("+")):
+            # explained by several named deviations together, each of which is a listed known finding
+            ck.known[dn] = {"what": "combination of the known findings " + ", ".join("Dev_" + p for p in dn[4:].split("+"))}
+        ck.violation(dn or key, dict(rec, spec=spec, impl=impl, bash=bash, stderr=ir.get("err", "")[:200],
+                                     spec_agrees_with_bash=(bash is None or bash == spec)))
+        if collect is not None:
+            collect[-1] = collect[-1] + (dn,)
 
 
 def run(ck):
@@ -189,6 +217,22 @@ def run(ck):
     if not t.ok:
         raise vlib.Inconclusive("ShParam: the contract violates one of its own laws:\n" + (t.violation or t.raw_tail))
     vecs = t.vecs.get("VEC", [])
+    ck.notes["bfs_vectors"] = len(vecs)
+    # seeded part: random walks of the same Next with the wide menus and longer patterns
+    ts = vlib.run_tlc("ShParam", "ShParam.sim.cfg", simulate=40 if ck.tier == "quick" else 1500, depth=9,
+                      seed=ck.seed, timeout=1500)
+    ck.add_tlc(ts)
+    if not ts.ok:
+        raise vlib.Inconclusive("ShParam (simulation): the contract violates one of its own laws:\n" + (ts.violation or ts.raw_tail))
+    seen = set(key_of(v) for v in vecs)
+    nsim = 0
+    for v in ts.vecs.get("VEC", []):
+        k = key_of(v)
+        if k not in seen:
+            seen.add(k)
+            vecs.append(v)
+            nsim += 1
+    ck.notes["simulated_vectors_new"] = nsim
     ck.cov["exhaustive"] = True
     ck.cov["rule"] = ("one vector per distinct state of ShParam (TLC BFS): store x parameter x operator x arguments x "
                       "quoted/unquoted, patterns exhaustively up to MaxPat elements; non-trivial = the expansion differs "
